@@ -165,14 +165,41 @@ impl Check for C12 {
         }
         obs.class(["long:strict", "long:one-tie", "long:one-reversal", "long:tie-and-reversal", "long:nan"][kind as usize]);
         if kind == 4 {
-            let mut f: Vec<f64> = v.iter().map(|&x| x as f64).collect();
+            // NaN at the generated position, or at the very first / last element; contiguous, reversed-stride and every-2nd views;
+            // also vectors of moderate length (16..200), where a scan may switch strategy
+            let (n, pos) = if src.chance(1, 3) {
+                let m = src.usize_in(9, 200);
+                (m, pos % m)
+            } else {
+                (n, pos)
+            };
+            let pos = match src.below(4) {
+                0 => 0,
+                1 => n - 1,
+                _ => pos,
+            };
+            let mut f: Vec<f64> = (0..n as i64).map(|i| (dir * i * 3) as f64).collect();
             f[pos] = f64::NAN;
-            let a = Array1::from_vec(f);
-            obs.asserts += 1;
-            match catch(|| conv(a.view().monotonic_prop())) {
-                Ok(Mono::Rising(_)) => fail!("nan-rising/long", "vector of length {n} with NaN at {pos} classified as Rising"),
-                Ok(_) => {}
-                Err(p) => fail!("panic", "monotonic_prop panicked: {p}"),
+            let rev: Vec<f64> = f.iter().rev().cloned().collect();
+            let mut st = vec![-1e9f64; 2 * n];
+            for (i, x) in f.iter().enumerate() {
+                st[2 * i] = *x;
+            }
+            let (a, ar, asn) = (Array1::from_vec(f.clone()), Array1::from_vec(rev), Array1::from_vec(st));
+            let f32v: Array1<f32> = ar.mapv(|x| x as f32);
+            obs.class(if pos == n - 1 { "long:nan-last" } else if pos == 0 { "long:nan-first" } else { "long:nan-inside" });
+            for (what, g) in [
+                ("contiguous", catch(|| conv(a.view().monotonic_prop()))),
+                ("reversed-stride view", catch(|| conv(ar.slice(s![..;-1]).monotonic_prop()))),
+                ("every-2nd view", catch(|| conv(asn.slice(s![..;2]).monotonic_prop()))),
+                ("f32 reversed-stride view", catch(|| conv(f32v.slice(s![..;-1]).monotonic_prop()))),
+            ] {
+                obs.asserts += 1;
+                match g {
+                    Ok(Mono::Rising(_)) => fail!("nan-rising/long", "{what}: vector of length {n} (direction {dir}) with NaN at {pos} classified as Rising"),
+                    Ok(_) => {}
+                    Err(p) => fail!("panic", "monotonic_prop panicked: {p}"),
+                }
             }
         } else {
             let f: Vec<f64> = v.iter().map(|&x| x as f64).collect();
@@ -204,6 +231,9 @@ impl Check for C12 {
             }
             let sa = Array1::from_vec(st);
             expect("f64", "long-strided", &sa.slice(s![..;2]), &f, obs)?;
+            // reversed strides: the memory holds the vector backwards
+            let ra = Array1::from_vec(f.iter().rev().cloned().collect::<Vec<f64>>());
+            expect("f64", "long-reversed", &ra.slice(s![..;-1]), &f, obs)?;
         }
         obs.nontrivial = kind != 0;
         obs.key(&(n, kind, pos, dir));
